@@ -67,7 +67,7 @@ ret ret_Constructarray8_float_ Constructarray8_float_ ConstructS_ ret_ZeroValuea
 _pad0_0 _pad1_0 _pad3_0 _end_pad_0 _end_pad_1 inner member unnamed _unnamed arg0 arg1 arg2 _arg0 result param param_1 input output in_ out_
 _group_0_binding_0_cs _group_0_binding_0_vs _group_0_binding_0_fs _group_0_binding_1_cs block_0Compute type_2_block_0Compute
 num_workgroups _num_workgroups thread_position_in_grid thread_index_in_threadgroup threadgroup_position_in_grid SV_DispatchThreadID SV_GroupIndex
-__local __global __dirname u0394_x u00e9_ Outer_ a_ a__ a_1 a_1_ a1 a_2
+__local __global __dirname u0394_x u00e9_ Outer_ a_ a__ a_1 a_1_ a1 a_2 ray___dir a___b x____y t___ q__r__s m_____n
 `)
 
 var unicodeNames = []string{"Δx", "é", "変数", "ß", "ñandú", "Ωmega", "πr2", "über", "λ", "наме", "x̂"}
@@ -372,8 +372,7 @@ var glsl460Only = func() map[string]bool {
 //   HLSL: intrinsic function names (user declarations hide them), the sized *_t type names (DXC / HLSL 2018 only),
 //         FXC's case-insensitive effect-framework tokens;
 //   MSL:  names of metal:: types (the emitted text qualifies them and has no `using namespace metal`);
-//   GLSL: identifiers containing "__" (reserved, but "defining such a name does not itself result in an error"),
-//         keywords introduced by GLSL 4.60 (the emitted #version is lower), built-in function names.
+//   GLSL: keywords introduced by GLSL 4.60 (the emitted #version is lower), built-in function names.
 func c16Uncertain(be, msg, word string) bool {
 	switch be {
 	case "hlsl":
@@ -398,7 +397,9 @@ func c16Uncertain(be, msg, word string) bool {
 		// template-id; the emitted text may use a user variable of that name in a comparison
 		return strings.Contains(msg, "Metal built-in type nam") || strings.Contains(msg, "metal:: library function") || strings.Contains(msg, "template argument list")
 	case "glsl":
-		if strings.Contains(msg, `contains "__"`) || strings.Contains(msg, "built-in function name") {
+		// identifiers containing "__" are reserved in GLSL (declaring one is not an error by itself, but the property asks
+		// for non-reserved spellings and naga's sanitiser exists to collapse them), so they are judged
+		if strings.Contains(msg, "built-in function name") {
 			return true
 		}
 		for w := range glsl460Only {
